@@ -32,7 +32,7 @@ ASSUMPTIONS = ["hyper-h2 is trusted as a frame codec and as the peers' state mac
                "hooks complete immediately (held hooks across streams are C11's axis)"]
 LEVEL_TEXT = "sampled exploration of multi-stream interleavings with exact per-tag comparison at both peers"
 LEVEL_NOTE = "trusts hyper-h2 and the sans-io driver"
-QUICK_N = 8_000
+QUICK_N = 6_000
 THOROUGH_N = 400_000
 
 
